@@ -111,6 +111,25 @@ func timed(d time.Duration, f func()) (panicked string, hang bool) {
 	}
 }
 
+// deadlockTimed: like timed, for the deadlock watchdogs of the concurrency scenarios. A deadlock never ends; a call
+// that is merely slow (race-detector build, GOMAXPROCS 1, sixteen goroutines, other checks running beside this one)
+// does: what has not returned after d is given four times d more before it is called a deadlock.
+func deadlockTimed(d time.Duration, f func()) (panicked string, hang bool) {
+	done := make(chan string, 1)
+	go func() { done <- safely(f) }()
+	select {
+	case p := <-done:
+		return p, false
+	case <-time.After(d):
+	}
+	select {
+	case p := <-done:
+		return p, false
+	case <-time.After(4 * d):
+		return "", true
+	}
+}
+
 type expOpts struct {
 	Skip, Continue, Absolute bool
 	Refuse                   map[string]bool
